@@ -31,3 +31,31 @@ def loopy(n):
 
 def lemma_loop(n):
     return loopy(n) == 2 * n
+
+
+class Box:
+    pass
+
+
+def elif_merge(c):
+    o = Box()
+    o.x = 1
+    o.t = 0
+    if c == 5:
+        o.t = 1
+        o.x = 2
+    elif not c:
+        o.t = 2
+    else:
+        o.t = 3
+        o.x = 99
+    return o.x
+
+
+def lemma_elif(c):
+    """if/elif/else whose arms assign different subsets of attributes (if-conversion must keep each)"""
+    return elif_merge(c) == ite(c == 5, 2, ite(c == 0, 1, 99))
+
+
+def lemma_elif_wrong(c):
+    return elif_merge(c) == ite(c == 5, 2, 1)
